@@ -22,6 +22,7 @@ struct Worker {
     child: Child,
     rx: mpsc::Receiver<String>,
     stderr_tail: Arc<Mutex<Vec<u8>>>,
+    stderr_done: Arc<std::sync::atomic::AtomicBool>,
 }
 
 fn spawn_worker(id: &str) -> Worker {
@@ -41,6 +42,8 @@ fn spawn_worker(id: &str) -> Worker {
     let stderr = child.stderr.take().unwrap();
     let stderr_tail = Arc::new(Mutex::new(Vec::new()));
     let tail2 = stderr_tail.clone();
+    let stderr_done = Arc::new(std::sync::atomic::AtomicBool::new(false));
+    let done2 = stderr_done.clone();
     std::thread::spawn(move || {
         use std::io::Read;
         let mut r = stderr;
@@ -56,8 +59,9 @@ fn spawn_worker(id: &str) -> Worker {
                 },
             }
         }
+        done2.store(true, Ordering::SeqCst);
     });
-    Worker { child, rx, stderr_tail }
+    Worker { child, rx, stderr_tail, stderr_done }
 }
 
 /// Evaluates `cases[i]` (one line each) with property `id`; returns one result line per case.
@@ -92,7 +96,10 @@ pub fn run_cases(id: &str, cases: &[String], opts: &PoolOptions) -> Vec<String> 
                         },
                         Err(mpsc::RecvTimeoutError::Disconnected) => {
                             let status = w.child.wait().ok();
-                            std::thread::sleep(Duration::from_millis(20));
+                            // the last words of a dying worker ("has overflowed its stack", "memory allocation of .. failed")
+                            // classify the abort: wait until the stderr reader has seen end-of-file (the pipe closes with the child)
+                            let t0 = std::time::Instant::now();
+                            while !w.stderr_done.load(Ordering::SeqCst) && t0.elapsed() < Duration::from_secs(10) { std::thread::sleep(Duration::from_millis(5)); }
                             let tail = String::from_utf8_lossy(&w.stderr_tail.lock().unwrap()).into_owned();
                             let tail: String = tail.lines().rev().take(6).collect::<Vec<_>>().into_iter().rev().collect::<Vec<_>>().join(" | ");
                             worker = None;
